@@ -20,7 +20,9 @@ RULE = ("a case is one connection multigraph (1-5 simulators in a random group t
 
 
 def make_case(seed: int, tier: str, prop: str, opts=None) -> Dict[str, Any]:
-    sc = gen.gen_dense_graph(seed, tier) if h64(seed, "family") % 8 == 0 else gen.gen_graph(seed, tier)
+    fam_ = h64(seed, "family") % 16
+    sc = gen.gen_dense_graph(seed, tier) if fam_ % 8 == 0 else (
+        gen.gen_sibling_loops(seed, tier) if fam_ == 3 else gen.gen_graph(seed, tier))
     k = 4 if tier == "quick" else 8
     orders = [{"start_seed": None, "connect_seed": None, "order_seed": None}]
     for j in range(1, k):
